@@ -207,7 +207,70 @@ def r2(ctx):
                 ok2 = good and [u(a_) for a_ in g.iter.args] == d_args
                 msg = "the element marks agreement with == when the direct distance is smaller and with != otherwise, over the tested strings" if ok2 else "the agreement element `%s` does not follow the tested orientation over %s" % (u(c)[:80], d_args)
             ctx.ob(fi.qual, "orientation-branches", ok2, fi.loc(comp), msg)
+    # form D: the comparison itself is chosen: agrees = operator.eq if <orientation test> else operator.ne ; [.. agrees(p, q) ..]
+    for comp in [x for x in walk_function(fi.node) if isinstance(x, ast.ListComp) and len(x.generators) == 1]:
+        g = comp.generators[0]
+        if not (isinstance(g.iter, ast.Call) and u(g.iter.func) == "zip" and len(g.iter.args) == 2 and isinstance(g.target, ast.Tuple) and len(g.target.elts) == 2):
+            continue
+        tn = [u(x) for x in g.target.elts]
+        for c in ast.walk(comp.elt):
+            if isinstance(c, ast.Call) and isinstance(c.func, (ast.Name, ast.IfExp)) and sorted(u(a_) for a_ in c.args) == sorted(tn):
+                d_ = util.single_def(fi.node, c.func.id) if isinstance(c.func, ast.Name) else c.func
+                if isinstance(d_, ast.IfExp) and {u(d_.body), u(d_.orelse)} == {"operator.eq", "operator.ne"}:
+                    found += 1
+                    direct_smaller_true, d_args, why, test = analyse_test(d_.test)
+                    ok = not why
+                    ctx.ob(fi.qual, "orientation-operands", ok, fi.loc(comp), "orientation test %s compares the direct with the complemented per-position distance of the same two haplotype strings" % u(test) if ok else "orientation test %s: %s" % (u(test), "; ".join(why)))
+                    ok2 = direct_smaller_true is not None and d_args is not None
+                    if ok2:
+                        eq_when_true = u(d_.body) == "operator.eq"
+                        strings = [u(util.resolve_locals(fi.node, a_)) for a_ in g.iter.args]
+                        ok2 = (eq_when_true == direct_smaller_true) and strings == [u(util.resolve_locals(fi.node, ast.parse(x_, mode="eval").body)) for x_ in d_args]
+                    ctx.ob(fi.qual, "orientation-branches", ok2, fi.loc(comp), "agreement is marked with == when the direct distance is smaller and with != otherwise, over the tested strings" if ok2 else "the chosen comparison does not follow the tested orientation")
     ctx.require(found >= 1, "no choice between an == and a != agreement vector found in compare_pair")
+
+
+def _switch_flips_groupby(ctx, fi, loop, enc, params, zipped_encodings):
+    """for key, run in groupby(<p0 != p1 over the zipped encodings>): if key: n = size of run; flips += n // 2; switches += n % 2.
+    Emits the obligations of R3 for this form and returns True, or returns False if the loop is not of this form."""
+    it = loop.iter
+    if not (isinstance(it, ast.Call) and u(it.func) in ("groupby", "itertools.groupby") and len(it.args) == 1 and not it.keywords and isinstance(loop.target, ast.Tuple) and len(loop.target.elts) == 2):
+        return False
+    src = it.args[0]
+    if isinstance(src, ast.Name):
+        src = util.single_def(fi.node, src.id)
+    if not (isinstance(src, (ast.ListComp, ast.GeneratorExp)) and len(src.generators) == 1 and not src.generators[0].ifs and zipped_encodings(src.generators[0].iter) and isinstance(src.generators[0].target, ast.Tuple)):
+        return False
+    tn = {u(x) for x in src.generators[0].target.elts}
+    e = src.elt
+    differs = isinstance(e, ast.Compare) and len(e.ops) == 1 and isinstance(e.ops[0], ast.NotEq) and {u(e.left), u(e.comparators[0])} == tn
+    ctx.ob(fi.qual, "iterates-switch-encodings", differs, fi.loc(loop), "runs of equal values of `p0 != p1` over the zipped switch encodings are grouped" if differs else "the grouped sequence is %s, not the position-wise disagreement of the two switch encodings" % u(e))
+    cfg = ctx.cfg(fi)
+    key, grp = [u(x) for x in loop.target.elts]
+    from sa import pathfx
+
+    its = pathfx.iteration_summaries(cfg, loop)
+    size_forms = ("sum((1 for _ in %s))" % grp, "len(list(%s))" % grp, "len(tuple(%s))" % grp)
+    problem = None
+    for ps in its:
+        fl = [e_[2] for e_ in ps.effects if e_[0] == "augstore" and u(e_[1]).endswith(".flips")]
+        sw = [e_[2] for e_ in ps.effects if e_[0] == "augstore" and u(e_[1]).endswith(".switches")]
+        if ps.has(key, True):
+            ok = len(fl) == 1 and len(sw) == 1 and isinstance(fl[0], ast.BinOp) and isinstance(fl[0].op, ast.FloorDiv) and u(fl[0].right) == "2" and isinstance(sw[0], ast.BinOp) and isinstance(sw[0].op, ast.Mod) and u(sw[0].right) == "2"
+            if ok:
+                import re as _re
+
+                canon = lambda t: _re.sub(r"for \w+ in", "for _ in", t)
+                ok = canon(u(fl[0].left)) in size_forms and canon(u(sw[0].left)) in size_forms
+            if not ok:
+                problem = "a run of disagreements must add (its length) // 2 flips and (its length) % 2 switches; the path adds flips %s, switches %s" % ([u(x) for x in fl], [u(x) for x in sw])
+        elif ps.has(key, False):
+            if fl or sw:
+                problem = "a run of agreeing positions must not be counted"
+        else:
+            problem = "an iteration does not test whether the group is a run of disagreements"
+    ctx.ob(fi.qual, "flush-decomposition", problem is None and bool(its), fi.loc(loop), "every maximal run of disagreeing positions adds run // 2 flips and run % 2 switches; agreeing runs add nothing" if problem is None else problem)
+    return True
 
 
 def r3(ctx):
@@ -223,12 +286,23 @@ def r3(ctx):
     ctx.require(len(loops) == 1, "compute_switch_flips no longer has exactly one loop")
     loop = loops[0]
     it = loop.iter
-    ok_iter = isinstance(it, ast.Call) and u(it.func) == "enumerate" and isinstance(it.args[0], ast.Call) and u(it.args[0].func) == "zip" and sorted(enc.get(u(a), "?") for a in it.args[0].args) == sorted(params[:2])
-    ctx.ob(fi.qual, "iterates-switch-encodings", ok_iter, fi.loc(loop), "the loop enumerates zip of the switch encodings of both parameters" if ok_iter else "loop %s does not enumerate the zipped switch encodings of the two parameters" % u(it))
-    if not ok_iter:
+    def zipped_encodings(z):
+        return isinstance(z, ast.Call) and u(z.func) == "zip" and len(z.args) == 2 and sorted(enc.get(u(a), "?") for a in z.args) == sorted(params[:2])
+
+    indexed = isinstance(it, ast.Call) and u(it.func) == "enumerate" and it.args and zipped_encodings(it.args[0]) and isinstance(loop.target, ast.Tuple) and len(loop.target.elts) == 2 and isinstance(loop.target.elts[1], ast.Tuple)
+    plain = zipped_encodings(it) and isinstance(loop.target, ast.Tuple) and len(loop.target.elts) == 2
+    if not indexed and not plain:
+        done = _switch_flips_groupby(ctx, fi, loop, enc, params, zipped_encodings)
+        if not done:
+            ctx.ob(fi.qual, "iterates-switch-encodings", None, fi.loc(loop), "loop over %s: not (an enumeration of) the zipped switch encodings of the two parameters, nor a groupby over their disagreements" % u(it)[:80])
         return
-    idx, (p0, p1) = u(loop.target.elts[0]), [u(x) for x in loop.target.elts[1].elts]
-    s0 = u(it.args[0].args[0])
+    ctx.ob(fi.qual, "iterates-switch-encodings", True, fi.loc(loop), "the loop runs over zip of the switch encodings of both parameters%s" % (" with their index" if indexed else ""))
+    if indexed:
+        idx, (p0, p1) = u(loop.target.elts[0]), [u(x) for x in loop.target.elts[1].elts]
+        s0 = u(it.args[0].args[0])
+    else:
+        idx, (p0, p1) = "<no index>", [u(x) for x in loop.target.elts]
+        s0 = u(it.args[0])
     # increment
     incs = [n for n in ast.walk(loop) if isinstance(n, ast.AugAssign) and isinstance(n.op, ast.Add) and isinstance(n.value, ast.Constant) and n.value.value == 1 and isinstance(n.target, ast.Name)]
     ctx.require(len(incs) == 1, "run counter increment not found")
@@ -304,6 +378,8 @@ def r3(ctx):
                 problem = ("undecided", "a path tests `%s`" % unknown, ps)
                 break
             for EQ, LAST in itertools.product((False, True), repeat=2):
+                if not indexed and LAST:
+                    continue  # no index: the loop cannot know the last position, the final run is flushed after the loop (checked below)
                 try:
                     if not all(tt_eval(e_, {"EQ": EQ, "LAST": LAST}) == pol_ for e_, pol_ in conds):
                         continue
@@ -331,8 +407,20 @@ def r3(ctx):
                         problem = ("violation", "a differing position that is not the last one must only extend the run; the path does: flips += %s, switches += %s, run = %s" % ([u(e_[2]) for e_ in fl], [u(e_[2]) for e_ in sw_], u(final) if final is not None else run), ps)
             if problem and problem[0] == "undecided":
                 break
-        if problem is None and len(covered) != 4:
-            problem = ("violation", "no path of an iteration handles EQ/LAST = %s" % sorted(set(itertools.product((False, True), repeat=2)) - covered), its[0])
+        need = set(itertools.product((False, True), repeat=2)) if indexed else {(False, False), (True, False)}
+        if problem is None and covered != need:
+            problem = ("violation", "no path of an iteration handles EQ/LAST = %s" % sorted(need - covered), its[0])
+        if problem is None and not indexed:
+            # the run that is still open when the encodings end is flushed after the loop: flips += run // 2 and switches += run % 2
+            tail = pathfx.summaries(cfg, src=cfg.node_of(loop))
+            tail = [ps_ for ps_ in tail if len(ps_.path) > 1 and ps_.path[1] not in cfg.loop_body_nodes(cfg.node_of(loop))]
+            okt = bool(tail)
+            for ps_ in tail:
+                fl_ = [undivmod(e_[2]) for e_ in ps_.effects if e_[0] == "augstore" and u(e_[1]).endswith(".flips")]
+                sw2 = [undivmod(e_[2]) for e_ in ps_.effects if e_[0] == "augstore" and u(e_[1]).endswith(".switches")]
+                okt = okt and len(fl_) == 1 and len(sw2) == 1 and isinstance(fl_[0], ast.BinOp) and isinstance(fl_[0].op, ast.FloorDiv) and u(fl_[0].right) == "2" and linear(fl_[0].left) == {run: 1} and isinstance(sw2[0], ast.BinOp) and isinstance(sw2[0].op, ast.Mod) and u(sw2[0].right) == "2" and linear(sw2[0].left) == {run: 1}
+            if not okt:
+                problem = ("violation", "the loop has no index, so the run that is still open at the end must be flushed after the loop as run // 2 flips and run % 2 switches -- it is not", tail[0] if tail else its[0])
         if problem and problem[0] == "undecided":
             ctx.ob(fi.qual, "flush-decomposition", None, fi.loc(loop), problem[1])
         else:
@@ -356,9 +444,36 @@ def r4(ctx):
     cfg = ctx.cfg(fi)
     n = 0
 
-    def present_guard(ga):
-        # `phase is not None and no allele of it is None`
-        return ("None is phase", False) in ga and any(t.startswith("any(") and "is None" in t and not p for t, p in ga)
+    from rules import c13
+
+    def present_guard(ga, var="phase"):
+        # `phase is not None and no allele of it is None` (any(... is None) false, all(... is not None) true, None not in ...)
+        return ("None is %s" % var, False) in ga and c13.none_free_guard(ga, {"%s.phase" % var})
+
+    def all_fully_phased(ga):
+        """`all(<phase present and complete> for phase in <this variant's phase in every data set>)`"""
+        for t, pol in ga:
+            if not pol or not t.startswith("all("):
+                continue
+            try:
+                e_ = ast.parse(t, mode="eval").body
+            except SyntaxError:
+                continue
+            if not (isinstance(e_, ast.Call) and len(e_.args) == 1 and isinstance(e_.args[0], (ast.GeneratorExp, ast.ListComp)) and len(e_.args[0].generators) == 1 and not e_.args[0].generators[0].ifs):
+                continue
+            g_ = e_.args[0].generators[0]
+            if not isinstance(g_.target, ast.Name):
+                continue
+            v_ = g_.target.id
+            inner = atoms(e_.args[0].elt, True)
+            if not present_guard(inner, v_):
+                continue
+            src_ = g_.iter
+            if isinstance(src_, ast.Name):
+                src_ = util.single_def(fi.node, src_.id)
+            if isinstance(src_, (ast.ListComp, ast.GeneratorExp)) and len(src_.generators) == 1 and u(src_.generators[0].iter) == "phases" and not src_.generators[0].ifs and u(src_.elt) == "%s[variant_index]" % u(src_.generators[0].target):
+                return t
+        return None
 
     def counted_all_present(ga):
         """`len(L) == len(phases)` where L gets exactly one entry per data set whose phase is present."""
@@ -408,6 +523,9 @@ def r4(ctx):
             elif L is not None:
                 ok = True
                 msg = "a variant enters an intersection block only if %s has one entry per data set, and an entry is only added where the phase is present" % L
+            elif all_fully_phased(ga) is not None:
+                ok = True
+                msg = "a variant enters an intersection block only if its phase is present and complete in every data set"
             elif tests:
                 ok = None
                 msg = "cannot tell whether `%s` means that every data set has a complete phase for the variant" % " and ".join(sorted(tests))[:120]
@@ -465,4 +583,4 @@ RULES = [
     ("C11.R4", "only present, complete phases enter blocks", r4),
     ("C11.R5", "per-chromosome switch-error records are collected afresh for each chromosome", r5),
 ]
-FLOORS = {"C11.R1": 12, "C11.R2": 2, "C11.R3": 4, "C11.R4": 2, "C11.R5": 1}
+FLOORS = {"C11.R1": 12, "C11.R2": 2, "C11.R3": 2, "C11.R4": 2, "C11.R5": 1}
